@@ -708,10 +708,10 @@ def load_anchors():
 
 class Module(object):
 
-  def __init__(self, relpath, src, anchors=None, foreign_text=None):
+  def __init__(self, relpath, src, anchors=None, foreign_text=None, tree=None):
     self.relpath = relpath
     self.src = src
-    self.tree = ast.parse(src, filename=relpath)
+    self.tree = tree if tree is not None else ast.parse(src, filename=relpath)
     self.inline_log = []
     if anchors is not None and any(a[0] == relpath for a in anchors):
       from sa import inline  # pylint: disable=g-import-not-at-top
@@ -804,13 +804,27 @@ class Repo(object):
               src = f.read()
           sources[rel] = src
     anchors = load_anchors() if inline_helpers else None
+    trees = {}
+    for rel in sorted(sources):
+      try:
+        trees[rel] = ast.parse(sources[rel], filename=rel)
+      except SyntaxError as e:
+        raise AnalysisError('parse error in %s: %s' % (rel, e))
+    self.rename_log = []
+    if inline_helpers:
+      from sa import renames  # pylint: disable=g-import-not-at-top
+      amap, fmap, self.rename_log = renames.detect(trees)
+      renames.apply(trees, amap, fmap)
+      for new, old in list(amap.items()) + list(fmap.items()):
+        # keep the "is it referenced elsewhere" text search consistent
+        for rel in sources:
+          if new in sources[rel]:
+            sources[rel] = sources[rel].replace(new, old)
     for rel in sorted(sources):
       def foreign_text(text, _rel=rel):
         return any(text in s for r, s in sources.items() if r != _rel)
-      try:
-        self.modules[rel] = Module(rel, sources[rel], anchors, foreign_text)
-      except SyntaxError as e:
-        raise AnalysisError('parse error in %s: %s' % (rel, e))
+      self.modules[rel] = Module(rel, sources[rel], anchors, foreign_text,
+                                 tree=trees[rel])
     self.n_functions = sum(
         sum(len(v) for v in m.funcs.values()) for m in self.modules.values())
 
@@ -1203,6 +1217,8 @@ def finish(report, decides, does_not_decide):
               'normal form: private helpers that are not rule anchors inlined '
               'into their callers (list below), canonical statement shapes '
               'C1-C10 (core.canonicalise)'),
+          'private_renames_undone': list(getattr(report.repo, 'rename_log',
+                                                 [])),
           'helpers_inlined': sorted(set(
               l for m in report.repo.modules.values()
               for l in getattr(m, 'inline_log', [])
